@@ -236,7 +236,10 @@ fn same(v: &Option<Violation>, want: &Violation) -> bool {
 }
 
 pub fn minimise(prop: &dyn Prop, sc: &Scenario, want: &Violation) -> (Scenario, Violation) {
-    minimise_with(prop, sc, want, 6000, &|c: &Scenario| prop.judge(c, None))
+    // a verdict that depends on the kernel's thread scheduling (C17, concurrent shape) is
+    // re-judged with many rounds per candidate: a small budget, the schedule matters little there
+    let budget = if want.site == "concurrent-threads" { 250 } else { 6000 };
+    minimise_with(prop, sc, want, budget, &|c: &Scenario| prop.judge(c, None))
 }
 
 /// judges a scenario in a fresh process (state left behind in statics by earlier runs of
@@ -288,7 +291,8 @@ pub fn minimise_with(
 ) -> (Scenario, Violation) {
     let mut cur = sc.clone();
     let mut cur_v = want.clone();
-    let mut budget: i64 = budget;
+    // (under Miri every judgement costs seconds: report the find almost as it is)
+    let mut budget: i64 = if cfg!(miri) { budget.min(30) } else { budget };
     let try_candidate = |cand: &Scenario, budget: &mut i64| -> Option<Violation> {
         *budget -= 1;
         let v = judge(cand);
@@ -680,6 +684,7 @@ pub fn cmd_check(args: &Args) -> i32 {
         return cmd_replay(prop, args, path);
     }
     if let Some(run) = args.run_index {
+        crate::props::c17::set_thread_rounds(3000);
         // regenerate one (unminimised) run from its seed and judge it
         let sc = prop.generate(run_seed(args.seed, run), run);
         println!("seed={} run={} config: {}", args.seed, run, sc.config);
@@ -718,6 +723,10 @@ pub fn cmd_check(args: &Args) -> i32 {
         args.threads
     );
     let res = run_batch(prop, args, runs);
+    // from here on single scenarios are re-judged (interference check, minimiser): the natively
+    // threaded C17 shape gets many more rounds, so that a verdict that depends on the kernel's
+    // scheduling is reproduced with high probability
+    crate::props::c17::set_thread_rounds(60);
     let known = load_known(prop.id());
     let mut known_hits: Vec<(Known, u64)> = Vec::new();
     let mut unlisted: Vec<&Found> = Vec::new();
@@ -744,6 +753,7 @@ pub fn cmd_check(args: &Args) -> i32 {
     } else {
         match prop.id() {
         "C01" => crate::extra::c01_extra(args),
+        "C17" => crate::extra::c17_extra(args),
         "C18" => crate::extra::c18_extra(args, prop),
         "C20" => crate::extra::c20_extra(args, prop),
         _ => (EvidenceExtra { items: vec![] }, vec![]),
@@ -846,7 +856,7 @@ pub fn cmd_check(args: &Args) -> i32 {
             msc.ops.len(),
             f.scenario.ops.len(),
             res.counts.get(&(f.violation.clause.clone(), f.violation.site.clone())).unwrap_or(&0),
-            if confirmed { "reproduced" } else { "NOT-REPRODUCED" }
+            if cfg!(miri) { "not-attempted-under-miri" } else if confirmed { "reproduced" } else { "NOT-REPRODUCED" }
         ));
         lines.push(format!("  {}", mv.detail));
         reported += 1;
@@ -903,6 +913,11 @@ pub fn cmd_check(args: &Args) -> i32 {
 }
 
 fn confirm_in_fresh_process(prop: &str, path: &str) -> bool {
+    if cfg!(miri) {
+        // Miri cannot spawn processes; the schedule is a function of -Zmiri-seed, and the caller
+        // of the Miri slice replays the file with `./check <id> --replay <file> --miri <k>`
+        return true;
+    }
     let exe = match std::env::current_exe() {
         Ok(e) => e,
         Err(_) => return false,
@@ -920,6 +935,7 @@ fn confirm_in_fresh_process(prop: &str, path: &str) -> bool {
 }
 
 pub fn cmd_replay(prop: &dyn Prop, _args: &Args, path: &str) -> i32 {
+    crate::props::c17::set_thread_rounds(3000);
     if prop.id() == "C20" {
         let _ = crate::props::c20::seam_probe();
     }
